@@ -18,12 +18,15 @@ import (
 // ---------------------------------------------------------------------------------------------
 // keys of the genuine defects this check rediscovers (see harness/C03/proposed_known.jsonl)
 
+const vfC03Default = 4 * 1024 * 1024
+
 const (
-	vfC03KeyPath     = "prepareRequest-decoded-path-with-escaped-reserved-char(%3F|%23|%25)-corrupts-backend-url"
-	vfC03KeyCompress = "proxy-compression-buffered-keeps-ContentLength-of-uncompressed-body"
-	vfC03KeyRABody   = "responseadaptor-body-keeps-backend-Content-Length"
-	vfC03KeyHead     = "HEAD-buffered-backend-declares-Content-Length-FetchPayload-reads-absent-body-500"
-	vfC03KeyStreamGz = "handler-panic runtime error: invalid memory address or nil pointer dereference @ readers.(*CallbackReader).OnAfter"
+	vfC03KeyPath          = "prepareRequest-decoded-path-with-escaped-reserved-char(%3F|%23|%25)-corrupts-backend-url"
+	vfC03KeyCompress      = "proxy-compression-buffered-keeps-ContentLength-of-uncompressed-body"
+	vfC03KeyRABody        = "responseadaptor-body-keeps-backend-Content-Length"
+	vfC03KeyHead          = "HEAD-buffered-backend-declares-Content-Length-FetchPayload-reads-absent-body-500"
+	vfC03KeyTimeoutStream = "pool-timeout-cancels-streamed-response-body-when-handler-returns"
+	vfC03KeyStreamGz      = "handler-panic runtime error: invalid memory address or nil pointer dereference @ readers.(*CallbackReader).OnAfter"
 )
 
 // ---------------------------------------------------------------------------------------------
@@ -268,7 +271,7 @@ func vfC03GenResp(rt *rapid.T, thorough bool) vfC03Resp {
 	return p
 }
 
-func vfC03GenCfg(rt *rapid.T) *vfxCfg {
+func vfC03GenCfg(rt *rapid.T, thorough bool) *vfxCfg {
 	c := &vfxCfg{Compression: -1, Paths: []vfxPathCfg{{Prefix: "/"}}, Pools: []vfxPoolCfg{{}}}
 	c.ByHostName = rapid.Bool().Draw(rt, "by-hostname")
 	c.KeepHost = rapid.IntRange(0, 2).Draw(rt, "keephost") == 0
@@ -295,6 +298,9 @@ func vfC03GenCfg(rt *rapid.T) *vfxCfg {
 		} else {
 			c.ProxyServerMax = -1
 		}
+	}
+	if thorough && rapid.IntRange(0, 7).Draw(rt, "pool-timeout") == 0 {
+		c.PoolTimeout = "120s" // never reached; see vfC03KeyTimeoutStream
 	}
 	return c
 }
@@ -641,13 +647,13 @@ func TestVerifC03Forward(t *testing.T) {
 	defer vf.End()
 	thorough := os.Getenv("VERIF_TIER") == "thorough"
 	rapid.Check(t, func(rt *rapid.T) {
-		cfg := vfC03GenCfg(rt)
+		cfg := vfC03GenCfg(rt, thorough)
 		rig, err := vfxNewRig(cfg)
 		if err != nil {
-			rt.Fatalf("VF-INCONCLUSIVE generator produced a configuration the acceptance path rejects: %v", err)
+			rt.Fatalf("VF-INCONCLUSIVE cannot build the rig (configuration rejected by the acceptance path, or no listener): %v", err)
 		}
 		defer rig.Close()
-		nreq := rapid.IntRange(1, 3).Draw(rt, "nreq")
+		nreq := rapid.IntRange(1, 5).Draw(rt, "nreq")
 		for i := 0; i < nreq; i++ {
 			steer := func(key string) bool {
 				// exclude by construction once a defect is listed, but keep reproducing it now and then
@@ -658,6 +664,13 @@ func TestVerifC03Forward(t *testing.T) {
 			}
 			q := vfC03GenReq(rt, thorough, steer(vfC03KeyPath))
 			p := vfC03GenResp(rt, thorough)
+			// bodies above the 4 MiB default limit only where that direction streams
+			if q.BodyN > vfC03Default && !vfC03ReqStream(cfg) {
+				q.BodyN = 70 * 1024
+			}
+			if p.BodyN > vfC03Default && !vfC03RespStream(cfg) {
+				p.BodyN = 70 * 1024
+			}
 			if vfC03CompressStreamTrigger(cfg, &q, &p) && steer(vfC03KeyStreamGz) {
 				q.AcceptEn = "identity"
 				vf.Exclude()
@@ -669,16 +682,16 @@ func TestVerifC03Forward(t *testing.T) {
 				vf.Exclude()
 			}
 			wire := q.toWire()
-			rig.setScript(p.toScript())
-			resp, err := rig.do(wire)
+			resp, seen, frontLog, transient, err := rig.exchange(wire, p.toScript())
 			if err != nil {
 				if err == errVfxTimeout {
 					rt.Fatalf("VF-INCONCLUSIVE no complete response within %v for %s", vfxIOTimeout, wire)
 				}
 				rt.Fatalf("VF-INCONCLUSIVE client I/O problem: %v", err)
 			}
-			seen := rig.received()
-			frontLog := rig.frontLog.take()
+			if transient {
+				vf.Class("transient-503-without-backend-contact-retried")
+			}
 
 			// classes
 			reserved := vfC03ReservedEsc.MatchString(q.RawPath)
@@ -700,7 +713,7 @@ func TestVerifC03Forward(t *testing.T) {
 				"recode-step": recode, "req-stream": vfC03ReqStream(cfg), "resp-stream": vfC03RespStream(cfg), "req-body": q.BodyN > 0, "resp-body": p.BodyN > 0,
 				"req-gzip-labelled": q.Gzip, "resp-gzip-labelled": p.Gzip, "server-by-hostname": cfg.ByHostName, "keepHost": cfg.KeepHost,
 				"compression-configured": cfg.Compression >= 0, "reqadaptor=" + cfg.ReqAdaptor: cfg.ReqAdaptor != "", "respadaptor=" + cfg.RespAdaptor: cfg.RespAdaptor != "",
-				"body>=70KiB": q.BodyN >= 70*1024 || p.BodyN >= 70*1024, "hop-header-sent": len(q.Hop) > 0, "conn-reused": i > 0, "query": q.Query != ""} {
+				"body>=70KiB": q.BodyN >= 70*1024 || p.BodyN >= 70*1024, "hop-header-sent": len(q.Hop) > 0, "conn-reused": rig.lastReused, "query": q.Query != "", "pool-timeout": cfg.PoolTimeout != ""} {
 				if on {
 					vf.Class(n)
 				}
@@ -727,6 +740,8 @@ func TestVerifC03Forward(t *testing.T) {
 				case reserved && (v.Symptom == "req-path" || v.Symptom == "req-query" || v.Symptom == "req-not-forwarded"):
 					key = vfC03KeyPath
 				case v.Symptom == "req-not-forwarded":
+				case respSide && cfg.PoolTimeout != "" && vfC03RespStream(cfg) && v.Symptom != "resp-status" && v.Symptom != "resp-header":
+					key = vfC03KeyTimeoutStream
 				case respSide && vfC03HeadTrigger(cfg, &q, &p) && resp.Status == 500:
 					key = vfC03KeyHead
 				case respSide && vfC03CompressTrigger(cfg, &q, &p):
